@@ -358,12 +358,16 @@ class LoopCallbackProtocol(Protocol):
         if guard is not None:
             st.oblige(f"{ip.task.name}/callback-is-currently-registered", guard(st, f), "call-pre")
         st.event("callback", f)
-        k = st.fork(3)
+        # a user callback may raise anything: one representative per class a handler in scope can tell apart
+        # (ExitMainLoop; InterruptedError, which run()'s EINTR guard names; any other exception)
+        k = st.fork(4)
         _havoc_by_callback(st)
         if k == 1:
             raise PyRaise(SExc(ExitMainLoop, (), site="user callback"))
         if k == 2:
             raise PyRaise(SExc(Exception, ("<user callback raised>",), site="user callback"))
+        if k == 3:
+            raise PyRaise(SExc(InterruptedError, ("<user callback raised InterruptedError>",), site="user callback"))
         return None
 
 
@@ -515,7 +519,7 @@ def _loop_setup(st, self_obj, vals):
 @contract(SL + "SelectEventLoop._entering_idle", property="C13", replayable=False)
 class entering_idle:
     self_shape = LOOP
-    raises = (ExitMainLoop, Exception)
+    raises = (ExitMainLoop, InterruptedError, Exception)
     setup = staticmethod(_loop_setup)
     call_real = staticmethod(_loop_real)
     callback_guard = staticmethod(_guard)
@@ -537,7 +541,7 @@ class entering_idle:
 @contract(SL + "SelectEventLoop._loop", property="C13", replayable=False)
 class loop_iteration:
     self_shape = LOOP
-    raises = (ExitMainLoop, Exception)
+    raises = (ExitMainLoop, InterruptedError, Exception)
     setup = staticmethod(_loop_setup)
     call_real = staticmethod(_loop_real)
     callback_guard = staticmethod(_guard)
@@ -604,6 +608,10 @@ class run:
     def on_raise(old, s, a, exc):
         yield "ExitMainLoop-never-escapes", not issubclass(exc.cls, ExitMainLoop)
         yield "the-callbacks-exception-propagates-unchanged", exc.cls is Exception and "callee" in str(exc.site)
+        # What the code does with the third class, stated as it is (it contradicts the statement's "any other
+        # exception propagates": known finding C13-KF1, reported by the bounded check): an InterruptedError raised
+        # by a callback is caught by the EINTR guard around the iteration and the loop goes on.
+        yield "InterruptedError-from-a-callback-never-leaves-run (KNOWN FINDING C13-KF1)", exc.cls is not InterruptedError
 
     loops = {0: Loop(invariant=lambda v: True, modifies=("self._did_something",))}
 
